@@ -10,7 +10,10 @@
    Each waiter takes a ticket under the mutex and then waits, so a waker that has seen
    ticket k under the mutex knows k waiters are on the cv queue (atomic release-and-wait).
    The waker then issues s signals or one broadcast, inside the critical section (forcing
-   transfers to the mutex queue) or after it, and waits for quiescence (exact in Mode B,
+   transfers to the mutex queue), inside a READ section (the mutex is read-held: reader waiters
+   are woken directly, writer waiters transferred) or after it; in a third of the rounds the
+   waiters are spread over TWO condition variables of the one mutex and the waker wakes both in
+   the same section.  It then waits for quiescence (exact in Mode B,
    consistent snapshot in Mode A).  Oracles at quiescence:
      broadcast:  no registered waiter is still asleep;
      signals:    if some waiter is still asleep, then at least s waiters reported a wake-up
@@ -27,7 +30,8 @@ enum { WK_PLAIN, WK_TIMED_SHORT, WK_TIMED_FAR, WK_NOTE, WK_WAITN, WK_WAITN_TIMED
 static const char *const wkname[] = { "cv_wait", "cv_wait_deadline(short)", "cv_wait_deadline(far)", "cv_wait_deadline(note)", "wait_n", "wait_n(short deadline)" };
 struct wspec { int kind, reader, nobj, dl_ns; };
 static struct {
-	nsync_mu mu; nsync_cv cv; nsync_note note; nsync_counter ctr;
+	nsync_mu mu; nsync_cv cvs[2]; nsync_note note; nsync_counter ctr;
+	int ncv, cv_of[MAXW + 1], bcast_c[2], nsignals_c[2];
 	int W, R;
 	int k, foreign;
 	struct wspec w[MAXW + 1];
@@ -37,7 +41,7 @@ static struct {
 	int nsignals, bcast, inside;
 	int cleanup;
 } S;
-enum { CV_WAITERS = 0, CV_WOKEN, CV_TIMEDOUT, CV_SLEPT, CV_SIG_ROUNDS, CV_BCAST_ROUNDS, CV_ASLEEP_AFTER_SIGNALS, CV_RACES, CV_INSIDE, CV_READER_RULE, CV_WAITN };
+enum { CV_WAITERS = 0, CV_WOKEN, CV_TIMEDOUT, CV_SLEPT, CV_SIG_ROUNDS, CV_BCAST_ROUNDS, CV_ASLEEP_AFTER_SIGNALS, CV_RACES, CV_INSIDE, CV_READER_RULE, CV_WAITN, CV_INSIDE_R };
 
 static void my_lock (void *m) { nsync_mu_lock ((nsync_mu *) m); }
 static void my_unlock (void *m) { nsync_mu_unlock ((nsync_mu *) m); }
@@ -55,6 +59,7 @@ static void leave (int writer) { if (writer) sc_dec (&S.W); else sc_dec (&S.R); 
 
 static void waiter (int tid) {
 	const struct wspec *w = &S.w[tid];
+	nsync_cv *cvp = &S.cvs[S.cv_of[tid]];
 	int writer = !w->reader, res = 0, woke = 0, timed = 0, first = 1;
 	nsync_time dl = nsync_time_no_deadline;
 	const char *api = "nsync_cv_wait";
@@ -74,7 +79,7 @@ static void waiter (int tid) {
 		if (w->kind == WK_WAITN || w->kind == WK_WAITN_TIMED) {
 			struct nsync_waitable_s ws[5]; struct nsync_waitable_s *pw[5]; int n = 0, i, cvpos;
 			for (i = 0; i + 1 < w->nobj; i++) { ws[n].v = S.ctr; ws[n].funcs = &nsync_counter_waitable_funcs; n++; }
-			cvpos = n; ws[n].v = &S.cv; ws[n].funcs = &nsync_cv_waitable_funcs; n++;
+			cvpos = n; ws[n].v = cvp; ws[n].funcs = &nsync_cv_waitable_funcs; n++;
 			for (i = 0; i < n; i++) pw[i] = &ws[i];
 			api = "nsync_wait_n"; rt_cover (CV_WAITN);
 			RT_OP_DL (api, timed ? rt_ts_ns (dl) : 0, res = nsync_wait_n (&S.mu, writer ? &my_lock : &my_rlock, writer ? &my_unlock : &my_runlock, dl, n, pw));
@@ -84,13 +89,13 @@ static void waiter (int tid) {
 			res = woke ? 0 : ETIMEDOUT;
 		} else if (S.foreign) {
 			api = "nsync_cv_wait_with_deadline_generic";
-			RT_OP_DL (api, timed ? rt_ts_ns (dl) : 0, res = nsync_cv_wait_with_deadline_generic (&S.cv, &S.mu, writer ? &my_lock : &my_rlock, writer ? &my_unlock : &my_runlock, dl, first && w->kind == WK_NOTE ? S.note : NULL));
+			RT_OP_DL (api, timed ? rt_ts_ns (dl) : 0, res = nsync_cv_wait_with_deadline_generic (cvp, &S.mu, writer ? &my_lock : &my_rlock, writer ? &my_unlock : &my_runlock, dl, first && w->kind == WK_NOTE ? S.note : NULL));
 			woke = (res == 0);
 		} else if (w->kind == WK_PLAIN || !first) {
-			RT_OP (api, nsync_cv_wait (&S.cv, &S.mu)); res = 0; woke = 1;
+			RT_OP (api, nsync_cv_wait (cvp, &S.mu)); res = 0; woke = 1;
 		} else {
 			api = "nsync_cv_wait_with_deadline";
-			RT_OP_DL (api, timed ? rt_ts_ns (dl) : 0, res = nsync_cv_wait_with_deadline (&S.cv, &S.mu, dl, w->kind == WK_NOTE ? S.note : NULL));
+			RT_OP_DL (api, timed ? rt_ts_ns (dl) : 0, res = nsync_cv_wait_with_deadline (cvp, &S.mu, dl, w->kind == WK_NOTE ? S.note : NULL));
 			woke = (res == 0);
 		}
 		if (rt_op_sleeps ()) { rt_cover (CV_SLEPT); rt_mark_nontrivial (); }
@@ -122,38 +127,52 @@ static void waker (void) {
 		rt_yield (); if (!rt_mode_b () && (++spins & 7) == 0) rt_sleep_us (10);
 		if (spins > 50000000) rt_fatal ("waiters never registered");
 	}
-	/* mutex held; all k waiters are on the cv queue (or already timed out) */
-	if (!S.inside) { leave (1); RT_OP ("nsync_mu_unlock", nsync_mu_unlock (&S.mu)); } else rt_cover (CV_INSIDE);
-	if (S.bcast) { rt_cover (CV_BCAST_ROUNDS); RT_OP ("nsync_cv_broadcast", nsync_cv_broadcast (&S.cv)); }
-	else { rt_cover (CV_SIG_ROUNDS); for (i = 0; i < S.nsignals; i++) { RT_OP ("nsync_cv_signal", nsync_cv_signal (&S.cv)); rt_point ("between-signals"); } }
-	if (S.inside) { rt_point ("holding"); leave (1); RT_OP ("nsync_mu_unlock", nsync_mu_unlock (&S.mu)); }
+	/* mutex held; all k waiters are on their cv's queue (or already timed out) */
+	if (S.inside != 1) { leave (1); RT_OP ("nsync_mu_unlock", nsync_mu_unlock (&S.mu)); } else rt_cover (CV_INSIDE);
+	if (S.inside == 2) { RT_OP ("nsync_mu_rlock", nsync_mu_rlock (&S.mu)); enter (0, "nsync_mu_rlock"); rt_cover (CV_INSIDE_R); }
+	{ int c;
+	  for (c = 0; c < S.ncv; c++) {
+		if (S.bcast_c[c]) { rt_cover (CV_BCAST_ROUNDS); RT_OP ("nsync_cv_broadcast", nsync_cv_broadcast (&S.cvs[c])); }
+		else { rt_cover (CV_SIG_ROUNDS); for (i = 0; i < S.nsignals_c[c]; i++) { RT_OP ("nsync_cv_signal", nsync_cv_signal (&S.cvs[c])); rt_point ("between-signals"); } }
+	  } }
+	if (S.inside == 1) { rt_point ("holding"); leave (1); RT_OP ("nsync_mu_unlock", nsync_mu_unlock (&S.mu)); }
+	if (S.inside == 2) { rt_point ("holding"); leave (0); RT_OP ("nsync_mu_runlock", nsync_mu_runlock (&S.mu)); }
 	rt_wait_quiescent ();
-	for (t = 1; t <= S.k; t++) {
-		int r = __atomic_load_n (&S.returned[t], __ATOMIC_ACQUIRE);
-		if (r == 0) asleep++; else if (r == 1) woke++; else tout++;
-		if (S.w[t].kind == WK_TIMED_SHORT || S.w[t].kind == WK_WAITN_TIMED) all_untimed = 0;
-		if (S.ticket_of[t] == 1) head = t;
-		if (S.w[t].kind == WK_WAITN || S.w[t].kind == WK_WAITN_TIMED) any_waitn = 1;
-	}
-	if (tout) rt_cover (CV_RACES);
-	if (S.bcast) {
-		if (asleep) rt_violation ("lost-wakeup", "broadcast", "after nsync_cv_broadcast and quiescence %d of %d registered waiter(s) are still asleep (woken %d, timed out %d)", asleep, S.k, woke, tout);
-	} else {
-		if (asleep) rt_cover (CV_ASLEEP_AFTER_SIGNALS);
-		if (asleep && woke < S.nsignals)
-			rt_violation ("swallowed-signal", tout ? "timeout-race" : "signal", "%d signal(s) were issued to %d registered waiter(s); at quiescence %d reported a wake-up, %d a timeout and %d are still asleep: a signal was lost or consumed by a waiter that reported a timeout", S.nsignals, S.k, woke, tout, asleep);
-		/* tickets taken by concurrent readers do not order their enqueues, but every ticket before the first
-		   writer ticket is a reader, so with native waiters only and ticket 1 a reader the queue head is a reader */
-		if (all_untimed && S.nsignals >= 1 && head && S.w[head].reader && !S.foreign && !any_waitn) {
-			rt_cover (CV_READER_RULE);
-			for (t = 1; t <= S.k; t++) if (S.w[t].reader && S.w[t].kind != WK_WAITN && S.w[t].kind != WK_WAITN_TIMED && __atomic_load_n (&S.returned[t], __ATOMIC_ACQUIRE) == 0)
-				rt_violation ("reader-rule", "signal", "the first waiter holds the mutex as a reader, so one signal must wake every waiting reader; reader waiter %d is still asleep", t);
+	{ int c;
+	  for (c = 0; c < S.ncv; c++) {
+		int nreg = 0;
+		asleep = woke = tout = 0; all_untimed = 1; head = 0; any_waitn = 0;
+		{ int best = 1 << 30; for (t = 1; t <= S.k; t++) if (S.cv_of[t] == c && S.ticket_of[t] < best) { best = S.ticket_of[t]; head = t; } }
+		for (t = 1; t <= S.k; t++) {
+			int r;
+			if (S.cv_of[t] != c) continue;
+			nreg++;
+			r = __atomic_load_n (&S.returned[t], __ATOMIC_ACQUIRE);
+			if (r == 0) asleep++; else if (r == 1) woke++; else tout++;
+			if (S.w[t].kind == WK_TIMED_SHORT || S.w[t].kind == WK_WAITN_TIMED) all_untimed = 0;
+			if (S.w[t].kind == WK_WAITN || S.w[t].kind == WK_WAITN_TIMED) any_waitn = 1;
 		}
-	}
+		if (nreg == 0) continue;
+		if (tout) rt_cover (CV_RACES);
+		if (S.bcast_c[c]) {
+			if (asleep) rt_violation ("lost-wakeup", "broadcast", "after nsync_cv_broadcast and quiescence %d of %d registered waiter(s) of the cv are still asleep (woken %d, timed out %d)", asleep, nreg, woke, tout);
+		} else {
+			if (asleep) rt_cover (CV_ASLEEP_AFTER_SIGNALS);
+			if (asleep && woke < S.nsignals_c[c])
+				rt_violation ("swallowed-signal", tout ? "timeout-race" : "signal", "%d signal(s) were issued to %d registered waiter(s); at quiescence %d reported a wake-up, %d a timeout and %d are still asleep: a signal was lost or consumed by a waiter that reported a timeout", S.nsignals_c[c], nreg, woke, tout, asleep);
+			/* tickets taken by concurrent readers do not order their enqueues, but every ticket before the first
+			   writer ticket is a reader, so with native waiters only and the cv's first ticket a reader the queue head is a reader */
+			if (all_untimed && S.nsignals_c[c] >= 1 && head && S.w[head].reader && !S.foreign && !any_waitn) {
+				rt_cover (CV_READER_RULE);
+				for (t = 1; t <= S.k; t++) if (S.cv_of[t] == c && S.w[t].reader && S.w[t].kind != WK_WAITN && S.w[t].kind != WK_WAITN_TIMED && __atomic_load_n (&S.returned[t], __ATOMIC_ACQUIRE) == 0)
+					rt_violation ("reader-rule", "signal", "the first waiter holds the mutex as a reader, so one signal must wake every waiting reader; reader waiter %d is still asleep", t);
+			}
+		}
+	  } }
 	/* clean-up: release whoever is still waiting */
 	for (i = 0; i < 64; i++) {
 		int pending = 0;
-		RT_OP ("nsync_cv_broadcast", nsync_cv_broadcast (&S.cv));
+		RT_OP ("nsync_cv_broadcast", nsync_cv_broadcast (&S.cvs[0])); RT_OP ("nsync_cv_broadcast", nsync_cv_broadcast (&S.cvs[1]));
 		for (t = 1; t <= S.k; t++) if (!rt_thread_done (t)) pending = 1;
 		if (!pending) break;
 		rt_wait_quiescent ();
@@ -164,7 +183,7 @@ static void body (int tid) { if (tid == 0) waker (); else waiter (tid); }
 static int setup (uint64_t seed) {
 	int t;
 	(void) seed;
-	nsync_mu_init (&S.mu); nsync_cv_init (&S.cv);
+	nsync_mu_init (&S.mu); nsync_cv_init (&S.cvs[0]); nsync_cv_init (&S.cvs[1]);
 	S.note = nsync_note_new (NULL, nsync_time_no_deadline);
 	S.ctr = nsync_counter_new (1);
 	S.W = S.R = 0; S.ticket = 0; S.cleanup = 0;
@@ -184,12 +203,18 @@ static int setup (uint64_t seed) {
 	S.bcast = rt_rand_n (3) == 0;
 	S.nsignals = 1 + (int) rt_rand_n (3);
 	S.inside = (int) rt_rand_n (2);
+	/* two cvs on the one mutex (a third of the rounds) and wake-ups issued from inside a READ section (a quarter) */
+	if (rt_rand_n (4) == 0) S.inside = 2;
+	S.ncv = (rt_rand_n (3) < (S.inside == 2 ? 2u : 1u) && !S.foreign) ? 2 : 1;
+	for (t = 1; t <= S.k; t++) S.cv_of[t] = S.ncv == 2 ? (int) rt_rand_n (2) : 0;
+	S.bcast_c[0] = S.bcast; S.nsignals_c[0] = S.nsignals; S.bcast_c[1] = (int) rt_rand_n (2); S.nsignals_c[1] = 1 + (int) rt_rand_n (2);
+	rt_ev ((uint32_t) (S.ncv | S.bcast_c[1] << 2 | S.nsignals_c[1] << 3));
 	rt_ev ((uint32_t) (S.bcast | S.nsignals << 1 | S.inside << 4 | S.foreign << 5 | S.k << 6));
 	return (1 + S.k);
 }
 static void check (void) {
 	if (sc_get (&S.W) != 0 || sc_get (&S.R) != 0) rt_fatal ("shadow counters not zero at round end");
-	if (S.cv.waiters != NULL) rt_violation ("leftover-registration", "cv", "the cv waiter list is not empty after every thread returned");
+	if (S.cvs[0].waiters != NULL || S.cvs[1].waiters != NULL) rt_violation ("leftover-registration", "cv", "the cv waiter list is not empty after every thread returned");
 	if ((sc_word (&S.mu.word) & (SC_MU_ANY_LOCK | 2u)) != 0) rt_violation ("final-word", "held", "after every thread finished the mutex word is %#x", sc_word (&S.mu.word));
 }
 static void teardown (void) { nsync_note_free (S.note); nsync_counter_free (S.ctr); }
@@ -197,11 +222,11 @@ static void describe (FILE *f) {
 	int t;
 	fprintf (f, "{\"waiters\":[");
 	for (t = 1; t <= S.k; t++) fprintf (f, "%s\"%s%s%s ticket=%d result=%s\"", t > 1 ? "," : "", S.w[t].reader ? "R " : "W ", wkname[S.w[t].kind], S.foreign ? " generic" : "", S.ticket_of[t], S.returned[t] == 1 ? "woken" : S.returned[t] == 2 ? "timeout" : "asleep");
-	fprintf (f, "],\"waker\":\"%s %s\"}", S.bcast ? "broadcast" : S.nsignals == 1 ? "1 signal" : S.nsignals == 2 ? "2 signals" : "3 signals", S.inside ? "inside the critical section" : "after the critical section");
+	fprintf (f, "],\"waker\":\"%s %s\"}", S.bcast ? "broadcast" : S.nsignals == 1 ? "1 signal" : S.nsignals == 2 ? "2 signals" : "3 signals", S.inside == 1 ? "inside the critical section" : S.inside == 2 ? "inside a read section" : "after the critical section");
 }
 static void pinit (void) {
 	rt_cover_name (CV_WAITERS, "waiters"); rt_cover_name (CV_WOKEN, "first_waits_woken"); rt_cover_name (CV_TIMEDOUT, "first_waits_timed_out"); rt_cover_name (CV_SLEPT, "waits_that_slept");
 	rt_cover_name (CV_SIG_ROUNDS, "signal_rounds"); rt_cover_name (CV_BCAST_ROUNDS, "broadcast_rounds"); rt_cover_name (CV_ASLEEP_AFTER_SIGNALS, "rounds_with_waiters_left_asleep_by_signals");
-	rt_cover_name (CV_RACES, "rounds_where_a_timeout_raced_the_wakeup"); rt_cover_name (CV_INSIDE, "wakeups_issued_holding_the_mutex"); rt_cover_name (CV_READER_RULE, "reader_rule_checks"); rt_cover_name (CV_WAITN, "wait_n_waiters");
+	rt_cover_name (CV_RACES, "rounds_where_a_timeout_raced_the_wakeup"); rt_cover_name (CV_INSIDE, "wakeups_issued_holding_the_mutex"); rt_cover_name (CV_READER_RULE, "reader_rule_checks"); rt_cover_name (CV_WAITN, "wait_n_waiters"); rt_cover_name (CV_INSIDE_R, "wakeups_issued_inside_a_read_section");
 }
 rt_scenario rt_scen = { "cv_tokens", "C04", 5, &pinit, &setup, &body, &check, &teardown, &describe, NULL, &describe, NULL };
